@@ -201,6 +201,7 @@ func checkC20(c *Ctx) {
 	c20WriterJoined(c)
 	c20PackageState(c)
 	c20FanoutWrite(c)
+	c20ClosureState(c)
 	// a message that keeps the caller's map is marshalled later by another goroutine while the caller may reuse the map
 	c05ParamsCopied(c, "R-params-copied")
 }
@@ -879,7 +880,6 @@ func c20FanoutWrite(c *Ctx) {
 	}
 }
 
-
 // heldLongTerm: some struct member or package-level variable of the library has a type that mentions T (directly, by
 // pointer, as element of a slice / array / map / channel, or through an interface T implements). An object of a type
 // nothing can hold lives in the locals of the call that created it.
@@ -932,6 +932,184 @@ func heldLongTerm(c *Ctx, T *types.Named) bool {
 						if mentions(st.Field(i).Type(), 0) {
 							return true
 						}
+					}
+				}
+			}
+		}
+	}
+	return false
+}
+
+// ---------------------------------------------------------------- R-closure-state
+// A function value that leaves the function that made it (returned, stored in a member, handed to another package)
+// may be called from any goroutine, many at a time. State it captured by reference is then shared: a write to it — the
+// variable itself, an element of a captured array or slice, a copy into a captured buffer — must be made under a lock
+// taken inside the closure. (A scratch buffer hoisted out of a per-call allocation into the closure "to save the
+// allocation" is exactly that.)
+func c20ClosureState(c *Ctx) {
+	nClosures, nWrites := 0, 0
+	for _, fn := range c.P.LibFns {
+		ir.EachInstr(fn, func(_ *ssa.BasicBlock, _ int, in ssa.Instruction) {
+			mc, ok := in.(*ssa.MakeClosure)
+			if !ok || mc.Referrers() == nil {
+				return
+			}
+			body, ok := mc.Fn.(*ssa.Function)
+			if !ok {
+				return
+			}
+			// does the function value leave its maker?
+			escapes := false
+			for _, r := range *mc.Referrers() {
+				switch y := r.(type) {
+				case *ssa.Return:
+					escapes = true
+				case *ssa.Store:
+					if y.Val == ssa.Value(mc) {
+						if _, isLocal := y.Addr.(*ssa.Alloc); !isLocal {
+							escapes = true
+						}
+					}
+				case *ssa.MakeInterface, *ssa.ChangeType:
+					escapes = true
+				case *ssa.Call:
+					// handed to a function of another package that keeps it (not sync.Once.Do, which runs it at once)
+					nm := ir.CallName(y)
+					if nm == "(*sync.Once).Do" || nm == "sort.Slice" || nm == "sort.SliceStable" {
+						continue
+					}
+					if sc := ir.StaticCallee(y); sc == nil || !c.P.IsLib(sc) {
+						escapes = true
+					}
+				}
+			}
+			if !escapes {
+				return
+			}
+			// a functional option (func(*T) applied once by the constructor of the T it configures) is construction code
+			if sig := body.Signature; sig.Results().Len() == 0 && sig.Params().Len() == 1 {
+				if pt, ok := sig.Params().At(0).Type().(*types.Pointer); ok {
+					if nt, ok := pt.Elem().(*types.Named); ok && ir.InLibrary(nt) {
+						return
+					}
+				}
+			}
+			nClosures++
+			for i, b := range mc.Bindings {
+				if i >= len(body.FreeVars) {
+					continue
+				}
+				fv := body.FreeVars[i]
+				if fv.Referrers() == nil {
+					continue
+				}
+				// the captured thing: a cell (captured by reference) or a slice / pointer value
+				_, byRef := b.(*ssa.Alloc)
+				report := func(at ssa.Instruction, what string) {
+					nWrites++
+					held := c.Locks().At(at)
+					c.R.Check(len(held) > 0, "R-closure-state", sprintf("%s captured by the function value made in %s", what, fname(fn)), c.Pos(at.Pos()),
+						"written under a lock taken in the closure",
+						sprintf("the function value made in %s leaves that function and writes %s without holding a lock: it can be called from several goroutines at once (a logger's encoder, a handler, a callback), which then write the same memory concurrently — a data race", fname(fn), what))
+				}
+				var follow func(v ssa.Value, d int, viaCell bool)
+				seen := map[ssa.Value]bool{}
+				follow = func(v ssa.Value, d int, viaCell bool) {
+					if v.Referrers() == nil || d > 4 || seen[v] {
+						return
+					}
+					seen[v] = true
+					for _, r := range *v.Referrers() {
+						switch y := r.(type) {
+						case *ssa.Store:
+							if y.Addr == v && (viaCell || d > 0) {
+								report(y, "the variable "+fv.Name())
+							}
+						case *ssa.UnOp:
+							if y.Op == token.MUL {
+								follow(y, d+1, false)
+							}
+						case *ssa.IndexAddr:
+							if y.X == v {
+								follow(y, d+1, true)
+							}
+						case *ssa.Slice:
+							if y.X == v {
+								follow(y, d+1, false)
+							}
+						case *ssa.Call:
+							if bi, ok := y.Call.Value.(*ssa.Builtin); ok && bi.Name() == "copy" && len(y.Call.Args) > 0 && y.Call.Args[0] == v {
+								report(y, "the buffer "+fv.Name())
+							}
+							// time.Time.AppendFormat(buf, …) and similar append-into calls write into the buffer's array
+							if strings.Contains(ir.CallName(y), ".Append") {
+								for _, a := range y.Call.Args {
+									if a == v {
+										report(y, "the buffer "+fv.Name())
+									}
+								}
+							}
+							// a library helper that fills the buffer it is handed
+							if sc := ir.StaticCallee(y); sc != nil && c.P.IsLib(sc) {
+								for ai, a := range y.Call.Args {
+									if a == v && ai < len(sc.Params) && writesIntoParam(sc, sc.Params[ai], 0) {
+										report(y, "the buffer "+fv.Name()+" (filled by "+fname(sc)+")")
+									}
+								}
+							}
+						}
+					}
+				}
+				if byRef {
+					follow(fv, 0, true)
+				} else {
+					switch fv.Type().Underlying().(type) {
+					case *types.Slice, *types.Pointer:
+						follow(fv, 0, false)
+					}
+				}
+			}
+		})
+	}
+	if nClosures < 10 {
+		c.R.Break("R-closure-state: only %d escaping function values found", nClosures)
+	}
+	c.R.Hold("R-closure-state", "function values that leave their maker", "", sprintf("%d escaping closures examined, %d writes to captured state", nClosures, nWrites))
+}
+
+
+// writesIntoParam: fn stores into the elements of its slice / pointer parameter p (directly, through a re-slice, copy,
+// or an Append-into call).
+func writesIntoParam(fn *ssa.Function, p ssa.Value, d int) bool {
+	if d > 3 || p.Referrers() == nil {
+		return false
+	}
+	for _, r := range *p.Referrers() {
+		switch y := r.(type) {
+		case *ssa.IndexAddr:
+			if y.X == p && y.Referrers() != nil {
+				for _, rr := range *y.Referrers() {
+					if st, ok := rr.(*ssa.Store); ok && st.Addr == ssa.Value(y) {
+						return true
+					}
+				}
+			}
+		case *ssa.Slice:
+			if y.X == p && writesIntoParam(fn, y, d+1) {
+				return true
+			}
+		case *ssa.Phi:
+			if writesIntoParam(fn, y, d+1) {
+				return true
+			}
+		case *ssa.Call:
+			if bi, ok := y.Call.Value.(*ssa.Builtin); ok && bi.Name() == "copy" && len(y.Call.Args) > 0 && y.Call.Args[0] == p {
+				return true
+			}
+			if strings.Contains(ir.CallName(y), ".Append") {
+				for _, a := range y.Call.Args {
+					if a == p {
+						return true
 					}
 				}
 			}
